@@ -24,6 +24,10 @@
                                 unmodified parameters, the binding precedes the statement that creates the worker task,
                                 names among {connection, rest, real_path} rebound elsewhere in handler or worker)
 
+3. body_resolves_first: for every Server method whose own body calls get_paths, whether its first executing statement is the
+   resolution itself (no await before it): with PathPermissions as the innermost decorator this makes the permission
+   decision and the handler's own resolution of `rest` see the same working directory and user (C04).
+
 Pure ast walk.  Fail closed: anything that does not fit raises Unclassified."""
 import ast
 import builtins
@@ -115,10 +119,15 @@ def params_of(fn):
 
 
 def get_paths_facts(fn):
+    return get_paths_facts_for(fn, 0)
+
+
+def get_paths_facts_for(fn, conn_index):
+    """facts about the uses of the parameter number conn_index (the connection) inside fn"""
     params = params_of(fn)
-    if not params:
-        raise Unclassified("get_paths has no parameters")
-    conn = params[0]
+    if len(params) <= conn_index:
+        raise Unclassified(f"{fn.name}: parameter {conn_index} missing")
+    conn = params[conn_index]
     local = set(bound_names(fn)) | set(params)
     reads, writes, other, free, scope = [], [], [], [], []
     consumed = set()  # ids of Name nodes that are the root of a classified attribute chain
@@ -292,6 +301,65 @@ def worker_facts(server_cls):
     return wrows, hrows
 
 
+def body_resolves_first(server_cls):
+    """for every method of Server whose own body (not a nested function) calls get_paths: is the first statement that
+    executes (nested definitions and a docstring skipped) a plain assignment from self.get_paths(connection, rest) on the
+    method's own parameters, with no await in it?  Then nothing can run between the innermost decorator's decision and
+    the body's own resolution of `rest`."""
+    rows = []
+    for m in server_cls.body:
+        if not isinstance(m, (ast.FunctionDef, ast.AsyncFunctionDef)) or m.name == "get_paths":
+            continue
+        own = own_statements(m)
+        calls = [st for st in own if not isinstance(st, (ast.FunctionDef, ast.AsyncFunctionDef, ast.ClassDef)) and any(
+            isinstance(n, ast.Call) and isinstance(n.func, ast.Attribute) and n.func.attr == "get_paths" for n in ast.walk(st))]
+        if not calls:
+            continue
+        params = params_of(m)
+        first = None
+        for st in m.body:
+            if isinstance(st, (ast.FunctionDef, ast.AsyncFunctionDef, ast.ClassDef)):
+                continue
+            if isinstance(st, ast.Expr) and isinstance(st.value, ast.Constant) and isinstance(st.value.value, str):
+                continue
+            first = st
+            break
+        ok = False
+        if isinstance(first, ast.Assign) and not any(isinstance(n, (ast.Await, ast.Yield, ast.YieldFrom)) for n in ast.walk(first)):
+            v = first.value
+            ok = (isinstance(v, ast.Call) and isinstance(v.func, ast.Attribute) and v.func.attr == "get_paths" and isinstance(v.func.value, ast.Name)
+                  and v.func.value.id == params[0] and not v.keywords and len(v.args) == 2
+                  and all(isinstance(a, ast.Name) for a in v.args) and [a.id for a in v.args] == params[1:3])
+        rows.append(f"({S(m.name)}, {emit.boolean(ok)})")
+    return rows
+
+
+def pathperm_facts(tree):
+    """attribute chains of `connection` read / written by PathPermissions.__call__.wrapper, and whether the permission
+    object tested by getattr is bound exactly once, by `await connection.user.get_permissions(virtual_path)`"""
+    cls = next((n for n in tree.body if isinstance(n, ast.ClassDef) and n.name == "PathPermissions"), None)
+    if cls is None:
+        raise Unclassified("class PathPermissions not found")
+    call = next((n for n in cls.body if isinstance(n, ast.FunctionDef) and n.name == "__call__"), None)
+    wrapper = next((n for n in (call.body if call else []) if isinstance(n, ast.AsyncFunctionDef)), None)
+    if wrapper is None:
+        raise Unclassified("PathPermissions.__call__: no async wrapper")
+    _decos, params, reads, writes, other, _free, _scope = get_paths_facts_for(wrapper, 1)
+    tested = None
+    for n in ast.walk(wrapper):
+        if isinstance(n, ast.Call) and isinstance(n.func, ast.Name) and n.func.id == "getattr" and n.args and isinstance(n.args[0], ast.Name):
+            tested = n.args[0].id
+    if tested is None:
+        raise Unclassified("PathPermissions wrapper: no getattr(<permission object>, <flag>)")
+    binds_ = [st for st in own_statements(wrapper) if binds(st, tested)]
+    direct = False
+    if len(binds_) == 1 and isinstance(binds_[0], ast.Assign) and isinstance(binds_[0].value, ast.Await):
+        c = binds_[0].value.value
+        direct = (isinstance(c, ast.Call) and ast.unparse(c.func) == f"{params[1]}.user.get_permissions" and len(c.args) == 1 and not c.keywords
+                  and isinstance(c.args[0], ast.Name) and binds_[0] in wrapper.body)
+    return reads, writes, other, direct
+
+
 def generate(src_dir):
     path = Path(src_dir) / "server.py"
     tree = ast.parse(path.read_text())
@@ -323,4 +391,13 @@ def generate(src_dir):
     out += "Definition worker_paths : list (string * (string * (bool * (bool * list string)))) :=\n  [" + ";\n   ".join(wrows) + "].\n"
     out += "(* owner -> (bindings of real_path, (it is `real_path, _ = self.get_paths(connection, rest)`, (before the task is created, rebound names))) *)\n"
     out += "Definition handler_resolves : list (string * (nat * (bool * (bool * list string)))) :=\n  [" + ";\n   ".join(hrows) + "].\n"
+    pr, pw, po, pdirect = pathperm_facts(tree)
+    out += "(* PathPermissions.__call__.wrapper: attribute chains of `connection` read / written, other uses, and: the object tested by\n"
+    out += "   getattr is bound once by `await connection.user.get_permissions(virtual_path)` *)\n"
+    out += f"Definition pp_conn_reads : list string := {slist(pr)}.\n"
+    out += f"Definition pp_conn_writes : list string := {slist(pw)}.\n"
+    out += f"Definition pp_conn_other : list string := {slist(po)}.\n"
+    out += f"Definition pp_lookup_direct : bool := {emit.boolean(pdirect)}.\n"
+    out += "(* method whose own body calls get_paths -> its first executing statement is `.. = self.get_paths(connection, rest)` without await *)\n"
+    out += "Definition body_resolves_first : list (string * bool) :=\n  [" + "; ".join(body_resolves_first(srv)) + "].\n"
     return out
